@@ -15,10 +15,15 @@ for d in sorted(glob.glob(os.path.join(V, "seeded", "*"))):
     if m.get("neutralised_by"):
         continue   # no longer property-breaking on the current tree (see meta.json history)
     items.append(("seeded/" + os.path.basename(d), m["property"], os.path.join(d, "patch.diff"), "independent sub-agent"))
-sel = sys.argv[1:]
+sel = [a for a in sys.argv[1:] if not a.startswith("--")]
+shard = next((a[8:] for a in sys.argv[1:] if a.startswith("--shard=")), None)      # --shard=k/n : every n-th item, rows dumped to .work/audit.k.json
 rows = []
-for name, prop, patch, origin in items:
+if "--merge" in sys.argv:
+    items = []
+for idx, (name, prop, patch, origin) in enumerate(items):
     if sel and not any(s in name for s in sel):
+        continue
+    if shard and idx % int(shard.split("/")[1]) != int(shard.split("/")[0]):
         continue
     wt = f"/tmp/wt/audit.{os.getpid()}"
     subprocess.run(["git", "-C", "/repo", "worktree", "add", "-q", "--detach", wt, "HEAD"], check=True)
@@ -39,7 +44,12 @@ for name, prop, patch, origin in items:
         subprocess.run([sys.executable, "-c", "from vf import env; env.clean_scratch_build()"], cwd=V, env=dict(os.environ, VERIF_REPO=wt, PYTHONPATH=V))
         subprocess.run(["git", "-C", "/repo", "worktree", "remove", "--force", wt])
     print(rows[-1], flush=True)
-if not sel:
+if shard:
+    os.makedirs(os.path.join(V, ".work"), exist_ok=True)
+    json.dump(rows, open(os.path.join(V, ".work", f"audit.{shard.split('/')[0]}.json"), "w"))
+elif "--merge" in sys.argv:
+    rows = sorted(sum((json.load(open(f)) for f in glob.glob(os.path.join(V, ".work", "audit.*.json"))), []), key=lambda r: r[0])
+if ("--merge" in sys.argv) or (not sel and not shard):
     with open(os.path.join(V, "MUTATION_AUDIT.md"), "w") as f:
         f.write("# Sensitivity audit (quick tier, VERIF_SEED=1)\n\nEvery change below compiles and passes the repository's own test-suite (no new failure against the sandbox baseline).\n"
                 "`caught` = the property's quick check exits 1 with a VIOLATION line on a scratch worktree carrying the change.\n\n| change | property | origin | quick check | sub-checks that fired | wall |\n|---|---|---|---|---|---|\n")
